@@ -89,6 +89,11 @@ def check_C05(rep, known):
     # the direct-collocation scenarios (C02 family) carry integral objectives: collocation quadrature
     scen_job(rep, 'ScenShoot', 'C02', [r'C05\.', r'build', r'varmap'], known)
     life_job(rep, [r'C05\.'], known)
+    # ocp.integral through the CasADi integrators and the explicit schemes on exactly solvable families (C03 family)
+    recs, st = tlc.generate('ScenFlow', 'ScenFlow.cfg', 'C03', rep.tier, rep.seed, parts=1)
+    rep.add_tlc(st)
+    outs = engine.pool_map('flow', 'replay', recs)
+    engine.process_results(rep, recs, outs, [r'C03\.b'], known)
     scen_job(rep, 'ScenDCs', 'C02s', [r'C05\.'], known, parts=4, replay=('dcs', 'replay'))
 
 
